@@ -3,7 +3,7 @@
 //! the reference selection is computed in the harness from the generated input.
 use crate::core::dltgen::*;
 use crate::core::*;
-use crate::rem::{build_adlt_bin, scratch_dir, verbose_str_payload, ADLT_BIN};
+use crate::rem::{build_adlt_bin, scratch_dir, verbose_str_payload, adlt_bin};
 use adlt::dlt::DltMessage;
 use adlt::utils::DltMessageIterator;
 use serde_json::{json, Value};
@@ -23,7 +23,7 @@ struct Gm {
     text: String,
 }
 
-/// three input files: f0 = ECU1 (two boots), f1 = ECU2, f2 = continuation of ECU1's second boot.
+/// four input files: f0 = ECU1 (two boots), f1 = ECU2, f2 = continuation of ECU1's second boot, f3 = both ECUs.
 /// All reception times are distinct and increasing inside a file; garbage sits between messages of f0.
 fn gen_inputs() -> Vec<Vec<Gm>> {
     let base: u64 = 1_640_000_000_000_000;
@@ -51,7 +51,18 @@ fn gen_inputs() -> Vec<Vec<Gm>> {
         let (a, c) = ids[(i as usize + 3) % 4];
         f1.push(Gm { file: 1, ecu: *b"ECU2", apid: a, ctid: c, recv_us: base + i * s + s / 2 + 3, ts_dms: 500_000 + i as u32 * 10_000, mcnt: 20 + i as u8, text: format!("ecu2 msg {i}") });
     }
-    vec![f0, f1, f2]
+    // f3: a file that carries BOTH ECUs (e.g. ECU2 tunnelled via ECU1), interleaved in time with f0/f1:
+    // files with nested but unequal ECU sets must still be treated as separate parallel streams
+    let mut f3 = vec![];
+    for (k, off_ms) in [1250u64, 1750, 2250, 2750].iter().enumerate() {
+        let recv = base + off_ms * 1000 + 17;
+        if k % 2 == 0 {
+            f3.push(Gm { file: 3, ecu: *b"ECU1", apid: *b"AP2\0", ctid: *b"CT2\0", recv_us: recv, ts_dms: 100_000 + (*off_ms as u32) * 10, mcnt: 40 + k as u8, text: format!("mixed ecu1 {k}") });
+        } else {
+            f3.push(Gm { file: 3, ecu: *b"ECU2", apid: *b"AP1\0", ctid: *b"CT1\0", recv_us: recv, ts_dms: 500_000 + (*off_ms as u32 - 500) * 10, mcnt: 40 + k as u8, text: format!("mixed ecu2 {k}") });
+        }
+    }
+    vec![f0, f1, f2, f3]
 }
 
 fn file_bytes(msgs: &[Gm], with_garbage: bool) -> Vec<u8> {
@@ -211,11 +222,19 @@ impl World {
     }
 }
 
-const PERMS: [[usize; 3]; 6] = [[0, 1, 2], [0, 2, 1], [1, 0, 2], [1, 2, 0], [2, 0, 1], [2, 1, 0]];
+fn perms4() -> Vec<Vec<usize>> {
+    let mut v = vec![];
+    enumr::permutations(4, |p| {
+        v.push(p.to_vec());
+        true
+    });
+    v.sort();
+    v
+}
 
 fn run_cfg(w: &World, c: &Cfg, tag: u64) -> Vec<(String, String, String)> {
     let mut viol = vec![];
-    let mut cmd = Command::new(ADLT_BIN);
+    let mut cmd = Command::new(adlt_bin());
     cmd.arg("convert");
     match c.style {
         0 => {
@@ -257,11 +276,12 @@ fn run_cfg(w: &World, c: &Cfg, tag: u64) -> Vec<(String, String, String)> {
     if c.out {
         cmd.arg("-o").arg(&outp);
     }
-    for i in PERMS[c.perm] {
-        cmd.arg(&w.files[i]);
+    let perm = &perms4()[c.perm];
+    for i in perm {
+        cmd.arg(&w.files[*i]);
     }
     if c.dup {
-        cmd.arg(&w.files[PERMS[c.perm][0]]);
+        cmd.arg(&w.files[perm[0]]);
     }
     let out = match cmd.output() {
         Ok(o) => o,
@@ -354,14 +374,8 @@ fn sel_disc(c: &Cfg) -> String {
     if c.ffile > 0 {
         d.push("ffile");
     }
-    if c.sort {
-        d.push("sort");
-    }
-    if c.perm > 0 {
-        d.push("perm");
-    }
-    if c.dup {
-        d.push("dup");
+    if c.perm > 0 || c.dup {
+        d.push("file_order");
     }
     d.join("+")
 }
@@ -375,7 +389,8 @@ fn configs(tier: Tier) -> Vec<Cfg> {
     let ffiles = [0usize, 1, 2];
     let sorts = [false, true];
     let styles_out: Vec<(usize, bool)> = if thorough { vec![(0, false), (1, false), (2, false), (0, true), (1, true), (2, true), (3, true)] } else { vec![(0, false), (2, true), (3, true)] };
-    let perms: Vec<usize> = if thorough { (0..6).collect() } else { vec![0, 4] };
+    // sorted permutations of 4 files: 0 = identity, 18 = [3,0,1,2] (the two-ECU file first), 17 = [2,3,1,0]
+    let perms: Vec<usize> = if thorough { (0..24).collect() } else { vec![0, 18, 17] };
     let mut v = vec![];
     for b in &bs {
         for e in &es {
@@ -397,7 +412,7 @@ fn configs(tier: Tier) -> Vec<Cfg> {
     // the same file named twice (dedup by canonical content/time), small product
     for &eac in &eacs {
         for &sort in &sorts {
-            for perm in 0..6 {
+            for perm in [0usize, 7, 12, 18, 23] {
                 v.push(Cfg { b: None, e: None, lcs: None, eac, ffile: 0, sort, style: 0, out: true, perm, dup: true });
             }
         }
@@ -410,8 +425,8 @@ impl Prop for C14 {
         Meta {
             id: "C14",
             level: "exploration",
-            rule: "full product of adlt convert options against the binary built from the working tree: -b {-,0,3} x -e {-,5,100} x --lcs {-,{1},{2},{1,3}} x --eac {-,ECU1,:AP1,'ECU2:AP2:CT2,ECU1::CT1'} x -f {-, DLF file (positive APID + negative CTID), dlt-convert list} x --sort x style/-o {-a,-x,-s with and without -o, -o alone} x every permutation of three generated input files (ECU1 with two boots and garbage between messages, ECU2, a continuation file of ECU1) + the first file named twice (quick: a 2-3 valued sub-product). Oracle computed in the harness from the generated messages: merged index order = global reception order, lifecycle ids = library detector on the merged stream renumbered as a fresh process counts, filters by their stated meaning (--eac parsed independently); printed indices = expected selection, each once, ascending when unsorted, ascii lines show the message; the -o file re-reads (library iterator, nothing skipped) to exactly the selected messages; identical for every file-argument order. Non-trivial = any selecting option set.".into(),
-            assumptions: vec!["one generated input set (16 messages, 3 files); lifecycle ids of the CLI are assumed to count from 1 in creation order in a fresh process".into()],
+            rule: "full product of adlt convert options against the binary built from the working tree: -b {-,0,3} x -e {-,5,100} x --lcs {-,{1},{2},{1,3}} x --eac {-,ECU1,:AP1,'ECU2:AP2:CT2,ECU1::CT1'} x -f {-, DLF file (positive APID + negative CTID), dlt-convert list} x --sort x style/-o {-a,-x,-s with and without -o, -o alone} x every permutation of four generated input files (ECU1 with two boots and garbage between messages, ECU2, a continuation file of ECU1, a file carrying both ECUs interleaved in time) + the first file named twice (quick: a 2-3 valued sub-product). Oracle computed in the harness from the generated messages: merged index order = global reception order, lifecycle ids = library detector on the merged stream renumbered as a fresh process counts, filters by their stated meaning (--eac parsed independently); printed indices = expected selection, each once, ascending when unsorted, ascii lines show the message; the -o file re-reads (library iterator, nothing skipped) to exactly the selected messages; identical for every file-argument order. Non-trivial = any selecting option set.".into(),
+            assumptions: vec!["one generated input set (20 messages, 4 files); lifecycle ids of the CLI are assumed to count from 1 in creation order in a fresh process".into()],
             budget_s: (50, 1500),
             workers: 1,
             required_landmarks: vec!["window", "lcs", "eac", "ffile_dlf", "ffile_conv", "sort", "o_file", "perm", "empty_selection", "nonempty_selection"],
